@@ -22,6 +22,7 @@ CFG = {
                   'FunctionalExtensionality.functional_extensionality_dep']
                + [q + a for q in ('', 'FloatAxioms.') for a in ('Prim2SF_SF2Prim', 'Prim2SF_valid', 'SF2Prim_Prim2SF', 'abs_spec')]),
     'uses_gen': False,
+    'parallel_model': 16,
     'rule': 'differential, bit for bit (16-hex-digit patterns, NaN payload ignored): per case line one waveform and one '
             'response; the REAL nn_greedy_deconvolution for every (offset, look_ahead) of a grid (wire grid 0..=1 x 3..=12 '
             'or pad grid 3..=5 x 7..=12, each response also on the other grid; pad response at offset 0 trips the assert), '
@@ -31,10 +32,28 @@ CFG = {
             'lengths 0..=20 around offset+look_ahead; all-positive, all-negative, zeros, signed zeros, subnormal/tiny, huge '
             '(squares overflow), NaN/inf, random bit patterns; other responses (length 0..=30, non-negative/NaN entries) and '
             'grids (look_ahead 0, slices out of range, empty ranges). rel17* lines, implementation only: outputs finite, '
-            '>= 0, right length and entry point = ls over the documented grid; exact 2^k scaling, k in -20..=20; equality '
-            'with a plain one-sample-at-a-time re-statement; isolated pulse recovery within 1e-6 through the wire path at '
-            'ring positions; multi-wire blocks of lengths 1..=256 across the seam with differing per-wire lengths: channel '
-            'count/order, output length = longest signal, finite, >= 0; table facts (response windows negative). '
+            '>= 0, right length and entry point = ls over the documented grid; equality '
+            'with a plain one-sample-at-a-time re-statement; rel17scale (tie of the binary64 scale theorems to the runs): '
+            'the line carries whether the REAL routines scale bit for bit under *2^k (every sweep of the grid, residual '
+            '*4^k, entry point), the model side evaluates the theorems\' extracted hypothesis nn_safe/ls_safe on the same '
+            'waveform, response, grid and k and alarms iff it is true and the implementation was not exact; in-domain '
+            'waveforms with every k of -20..=20 (hypothesis must be true) and |k| in {21, 50, 100, 200, 300, 400, 440, '
+            '460, 480, 490, 499, 500} (either), {501, 520, 600, 1000, 1022, 1023, 1024, 1080} (must be false); '
+            'rel17event: synthetic events (response-shaped pulses on single wires, multi-wire blocks, blocks across the '
+            '255/0 seam, several blocks, a long block, the full ring; matching three-row pad patterns one sample earlier; '
+            'optional noise) through MainEvent::avalanches(), and again with EVERY wire and pad sample * 2^k, every k of '
+            '-20..=20 and k in {-440, -400, -300, -100, 100, 300, 400, 470}: same number of avalanches, same t, wire and z '
+            'bit for bit, wire_amplitude and pad_amplitude * 2^k bit for bit; '
+            'rel17pulse: isolated pulse on a SINGLE-WIRE block at every one of the 256 ring positions, deviation reported '
+            'above 1e-12 (measured 2e-16; the property\'s figure is 1e-6); rel17block: multi-wire blocks - quick: 21 '
+            'lengths (1..=10, 16, 17, 100, 255, 256, six random) at five positions (first wire 0, last wire 255, crossing '
+            'the seam by one wire on either side, centred on the seam) and 16 rings with two or three blocks; thorough: '
+            'EVERY length 1..=256 at those five and two random positions, lengths <= 32 at EVERY seam-crossing position, '
+            '150 rings with several blocks - with differing per-wire lengths: ranges found, channel count and order, output '
+            'length = longest signal, finite, >= 0, each block among others = the block alone, exact 2^k scaling of the '
+            'block, and channel identity (signals synthesised from one distinguishable avalanche per wire induced on '
+            'the neighbours: output column j shows the avalanche put on wire j, within 1e-11 of the largest amplitude); '
+            'table facts (response windows negative). '
             'non-trivial = the sweep loop is entered and nothing panics; distinct = distinct case lines',
     'trusted': [
         'hand-written Gallina model of nn_greedy_deconvolution / ls_deconvolution (zipper over the residual instead of an '
@@ -46,9 +65,10 @@ CFG = {
         'powi(2) = x*x; no FMA contraction',
         'binned responses are taken from the hooks verif::wire_response()/pad_response() (binning and JSON parsing are not '
         'modelled); Cholesky step of the wire path only exercised (identity for single-wire blocks: measured bit for bit)',
-        'sign and finiteness laws for binary64 are proved from the standard library FloatAxioms (add/sub/mul/div/leb/ltb/eqb_spec); '
-        'IEEE law assumed, not discharged in Coq, when reading C17_scale_covariant for binary64: exactness of scaling by '
-        '2^k absent overflow/underflow (measured per run)',
+        'binary64 arithmetic laws are PROVED, not assumed: sign and finiteness laws from the standard library FloatAxioms '
+        '(add/sub/mul/div/leb/ltb/eqb_spec), the eleven exact-scaling laws (C17_f64_scale_laws) through Flocq; what remains '
+        'trusted there is that FloatAxioms describe the hardware: PrimFloat operations <-> IEEE 754 binary64 as executed by '
+        'the CPU for the Rust code and for the extracted OCaml (checked bit for bit on every differential case)',
     ],
     'level_text': 'Coq theorems over one generic model (any sample type F and operations; instantiated with PrimFloat for '
                   'the bit-exact differential and with exact rationals Qc to show every hypothesis set satisfiable): '
@@ -61,20 +81,33 @@ CFG = {
                   'binary64 from the standard FloatAxioms: for ALL float waveforms, responses and grids the routine returns '
                   'either no samples or one finite sample with clear sign bit per input sample '
                   '(C17_deconv_f64_all_inputs); (5) exact scale covariance incl. all control decisions from op-level laws '
-                  '(satisfiable: every c > 0 over Q and over Q with +inf); (6) an isolated pulse a*R at k is recovered as '
-                  'exactly a at k, 0 elsewhere, residual 0, by the offset-0 sweep and by the whole wire selection (over Q: '
-                  'any response with 13 negative leading samples); one implementation observation re-evaluated inside Coq.',
+                  '(satisfiable: every c > 0 over Q and over Q with +inf), and FOR BINARY64 under an executable predicate, see '
+                  'below; (6) OVER Q (exact rational arithmetic) ONLY: an isolated pulse a*R at k is recovered as '
+                  'exactly a at k, 0 elsewhere, residual 0, by the offset-0 sweep and by the whole wire selection, for '
+                  'any response with 13 negative leading samples (the generic statement C17_isolated_pulse_exact assumes field '
+                  'laws - -0 + 0*0 = -0, (a*r)/r = a - that are FALSE for binary64, so it says nothing about floats; for '
+                  'binary64 the recovery is measured: rel17pulse, 2e-16 relative, on single-wire blocks at all 256 ring '
+                  'positions, which is what "wherever the wire sits on the ring" claims); one implementation observation '
+                  're-evaluated inside Coq.',
     'level_note': 'NOT proved: that an in-domain waveform never drives every residual to +inf/NaN (i.e. that the output is '
                   'non-empty for calibrated samples), and the 1e-6 recovery figure in binary64 (residual growth in the response '
-                  'tail has no useful a-priori bound) - both are measured by the harness on every run (rel17prop, rel17pulse). '
-                  '(5) is proved from arithmetic laws stated as Section hypotheses; for binary64 they are assumed IEEE laws '
-                  '(scaling by 2^k exact absent overflow/underflow), with rel17scale measuring exactness per run, k in -20..=20. '
-                  'Multi-wire blocks (Cholesky of the cross-talk matrix) are outside the model; shape, finiteness, sign and '
-                  'exact block scaling are measured (rel17block). trusted: Coq kernel incl. primitive floats and the standard '
-                  'library FloatAxioms; hand model tied by differential run; extraction (ExtrOcamlBasic, ExtrOCamlFloats); '
-                  'harness and driver',
+                  'tail has no useful a-priori bound; theorem (6) is rational-only) - both are measured by the harness on every '
+                  'run (rel17prop, rel17pulse). The scale-covariance clause: PROVED for binary64 for |k| <= 500 under the '
+                  'executable no-overflow/no-underflow predicate nn_safe/ls_safe (arithmetic laws proved through Flocq, nothing '
+                  'assumed), and the predicate is evaluated by the model runner on every rel17scale case, so "predicate true and '
+                  'implementation not exact" is a violation. The clause is FALSE as a statement about all powers of two: beyond '
+                  'the binary64 range it fails on in-domain waveforms (k = 500: the sum of squared residuals overflows, every '
+                  'grid point has residual +inf and the EMPTY vector comes back; k = -1000: samples underflow) - a limitation of '
+                  'floating point; for amplitudes 1..1e4 the predicate was true on every generated case with |k| <= 440 and on '
+                  'most up to 490. The event-level clause (no time, wire or z changes; both amplitudes scale) goes through the '
+                  'Cholesky solve and the pad centroid, which are outside the model: measured on the implementation '
+                  '(rel17event), exact for every k of -475..=495 on the scanned events incl. multi-wire blocks. '
+                  'Multi-wire blocks (Cholesky of the cross-talk matrix) are outside the model; shape, finiteness, sign, '
+                  'channel identity and exact block scaling are measured (rel17block). trusted: Coq kernel incl. primitive '
+                  'floats and the standard library FloatAxioms (PrimFloat <-> hardware IEEE binary64); hand model tied by '
+                  'differential run; extraction (ExtrOcamlBasic, ExtrOCamlFloats, ExtrOCamlInt63); harness and driver',
     'note': 'a difference between model and implementation is a waveform on which the production loop departs from the '
             'proved-equivalent plain greedy scheme (or a change of grid constants / response tables / float semantics)',
 }
 
-CFG["level_extra"] = ('Scale covariance is proved FOR BINARY64 (C17_nn_greedy_scale_f64, C17_ls_deconv_scale_f64, C17_pad/wire_deconv_scale_f64): under a boolean, executable no-overflow/no-underflow predicate over the values the run actually produces (|k| <= 500), scaling the waveform by 2^k leaves every control decision unchanged and scales amplitudes by 2^k and the residual by 4^k bit for bit; the eleven op-level laws are proved through Flocq.')
+CFG["level_extra"] = ('Scale covariance is proved FOR BINARY64 (C17_nn_greedy_scale_f64, C17_ls_deconv_scale_f64, C17_pad/wire_deconv_scale_f64): under a boolean, executable no-overflow/no-underflow predicate over the values the run actually produces (|k| <= 500), scaling the waveform by 2^k leaves every control decision unchanged and scales amplitudes by 2^k and the residual by 4^k bit for bit; the eleven op-level laws are proved through Flocq. The predicate is extracted (nn_safe_fast/ls_safe_fast = nn_safe/ls_safe by conversion) and evaluated on every rel17scale case. Beyond the binary64 range (|k| > 500, or an intermediate leaving [2^-1021, 2^1023]) the clause is false of any float implementation.')
